@@ -164,7 +164,7 @@ enum SdesEdit {
 
 /// token-level bodies: a well-formed SDES spec, encoded chunk by chunk while recording the offsets of
 /// item length octets, PRIV prefix-length octets and fill octets, then 0..=2 targeted edits
-fn token_level() -> BoxedStrategy<Bytes> {
+pub(crate) fn token_level() -> BoxedStrategy<Bytes> {
     let ssrc = prop_oneof![2 => any::<u32>(), 2 => proptest::sample::select(vec![0u32, 0x0000_0001, 0x00ab_cdef, 0x0000_abcd, 0x0800_0000, 0x0108_0000])];
     let item = prop_oneof![
         4 => (1u8..=9, proptest::collection::vec(any::<u8>(), 0..=9)).prop_map(|(ty, v)| (ty, Vec::new(), v)),
@@ -265,7 +265,7 @@ fn well_formed() -> BoxedStrategy<Bytes> {
     gen::sdes_spec(false).prop_map(|s| Bytes(ref_encode(&PacketSpec::Sdes(s)))).boxed()
 }
 
-fn mutated_sdes() -> BoxedStrategy<Bytes> {
+pub(crate) fn mutated_sdes() -> BoxedStrategy<Bytes> {
     (gen::sdes_spec(false), proptest::collection::vec(gen::edit(), 1..=3))
         .prop_map(|(s, edits)| {
             let mut b = ref_encode(&PacketSpec::Sdes(s));
